@@ -1,16 +1,13 @@
 (* Eco/Gentoo/Version.v — model of pkg/ecosystem/gentoo/version.go (definitions only). *)
 From Verif.Base Require Import Bytes GoNum.
+From Verif.Gen Require Tables.
 From Verif.Eco Require Import VLayer RangeCore.
 Local Open Scope N_scope.
 
 (* var suffixValues = map[string]int{...} *)
-Definition suffixValues : list (bytes * Z) := [
-  ($"alpha", (-4)%Z);
-  ($"beta", (-3)%Z);
-  ($"pre", (-2)%Z);
-  ($"rc", (-1)%Z);
-  ($"p", 1%Z)
-].
+(* generated from the Go source on every run (tools/gen -> Gen/Tables.v) *)
+Definition suffixValues : list (bytes * Z) :=
+  Eval cbv delta [Verif.Gen.Tables.gentoo_suffixValues] in Verif.Gen.Tables.gentoo_suffixValues.
 
 (* the alternation (alpha|beta|pre|rc|p) of versionPattern, in source order *)
 Definition suffix_alts : list bytes := [$"alpha"; $"beta"; $"pre"; $"rc"; $"p"].
